@@ -5,3 +5,5 @@ import Props.C15
 #print axioms C15.lit_name_unknown
 #print axioms C15.and_short_circuit
 #print axioms C15.or_short_circuit
+#print axioms C15.boolop_values_sound
+#print axioms C15.boolop_values_iterated_sound
